@@ -134,6 +134,9 @@ def f_r2_init(schema: Schema, rep: Report):
     sfn = el.own_func("__set__")
     if sfn is None:
         raise AnalysisError("Element.__set__ not found")
+    from .flat import flat as _flat
+
+    sfn = _flat(p, TYPES, sfn, el)
     sp = params_of(sfn)
     stores = [s for s in own_statements(sfn) if isinstance(s, ast.Assign) and isinstance(s.targets[0], ast.Subscript)]
     sx = Expander(sfn)
